@@ -31,6 +31,8 @@ type taskSide struct {
 	prog        *Prog
 	lifted      map[ssa.Instruction]bool // helper calls standing for the sites they contain
 	bind        map[*ssa.Parameter]ssa.Value // while analysing a helper: its parameters -> arguments of the call site
+	parentCounter *types.Var // field of Writer/Reader whose address is handed to the tasks as shared counter
+	skippedF, dataF, decodedF *types.Var // fields of the decode result (nil on the encode side)
 }
 
 // unbind replaces a helper parameter by the argument of the call site under analysis.
@@ -175,6 +177,73 @@ func resolveSide(p *Prog, owner string) *taskSide {
 	}
 	if s.errField == nil {
 		undecided("task function %s: cannot identify result error field", s.fn)
+	}
+	// the parent's counter field: the address stored into the task's counter pointer
+	for _, bf := range append([]*ssa.Function{s.parent}, p.helperClosure(s.parent)...) {
+		eachInstr(bf, func(i ssa.Instruction) {
+			if st, ok := i.(*ssa.Store); ok && fieldVarOfAddr(st.Addr) == s.counter {
+				if fv := fieldVarOfAddr(st.Val); fv != nil {
+					s.parentCounter = fv
+				}
+			}
+		})
+	}
+	// decode result fields, resolved by type / data flow rather than by name
+	if rst, ok := s.resT.Underlying().(*types.Struct); ok {
+		var bools, slices []*types.Var
+		for i := 0; i < rst.NumFields(); i++ {
+			f := rst.Field(i)
+			if isBool(f.Type()) {
+				bools = append(bools, f)
+			}
+			if isByteSlice(f.Type()) {
+				slices = append(slices, f)
+			}
+			if f.Name() == "decoded" {
+				s.decodedF = f
+			}
+		}
+		if len(bools) == 1 {
+			s.skippedF = bools[0]
+		}
+		if len(slices) == 1 {
+			s.dataF = slices[0]
+		}
+		// decoded: the int field the exit handler fills from the cell that receives the transform's output length
+		if s.deferred != nil {
+			var cell ssa.Value
+			eachInstr(s.fn, func(i ssa.Instruction) {
+				st, ok := i.(*ssa.Store)
+				if !ok {
+					return
+				}
+				v := stripConv(st.Val)
+				if ex, ok := v.(*ssa.Extract); ok {
+					if c, ok := ex.Tuple.(*ssa.Call); ok {
+						if o := calleeObj(&c.Call); o != nil && o.Name() == "Inverse" {
+							cell = st.Addr
+						}
+					}
+				}
+			})
+			if cell != nil {
+				eachInstr(s.deferred, func(i ssa.Instruction) {
+					st, ok := i.(*ssa.Store)
+					if !ok {
+						return
+					}
+					fv := fieldVarOfAddr(st.Addr)
+					if fv == nil {
+						return
+					}
+					if u, ok := st.Val.(*ssa.UnOp); ok && u.Op == token.MUL {
+						if bindingOf(s.fn, s.deferred, u.X) == cell {
+							s.decodedF = fv
+						}
+					}
+				})
+			}
+		}
 	}
 	return s
 }
@@ -467,13 +536,16 @@ func ruleToken(p *Prog, r *RuleResult) {
 						hasOne = true
 					}
 				case *ssa.UnOp:
-					if fv := fieldVarOfLoad(x); fv != nil && fv.Name() == "blockID" {
+					if fv := fieldVarOfLoad(x); fv != nil && (fv == s.parentCounter || (s.parentCounter == nil && fv.Name() == "blockID")) {
 						hasBase = true
 					}
 				}
 			}
 			walk(st.Val, 0)
-			if hasPhi && hasOne && hasBase {
+			if hasPhi && hasOne && hasBase && staleBase(p, s, st.Val, resolve) {
+				idOK = true
+				r.fail(p.FnName(s.parent)+"#task-id-stale-base", p.IPos(st), "the base block id of a batch is read before the retry loop: when a whole batch was skipped and the loop starts another one, the new tasks get the ids of the previous batch and wait forever for a counter value that has already passed")
+			} else if hasPhi && hasOne && hasBase {
 				idOK = true
 				r.ok(fmt.Sprintf("%s: task id = base counter + loop index + 1", p.FnName(s.parent)), p.IPos(st))
 			} else {
@@ -728,18 +800,52 @@ func ruleCancel(p *Prog, r *RuleResult) {
 			}
 		})
 		doneOK := len(dones) > 0 && allPathsThrough(d, d.Blocks[0], 0, dones)
+		doneEarly := false
 		if !doneOK {
+			// a separately deferred Done must be registered BEFORE the handler (defers run last-in first-out): the
+			// parent may only be released after the handler has published the task error and the counter
 			eachInstr(s.fn, func(i ssa.Instruction) {
 				if df, ok := i.(*ssa.Defer); ok && isDone(&df.Call) && df.Block() == s.fn.Blocks[0] {
-					doneOK = true
+					if deferInstr != nil && instrDominates(df, deferInstr) {
+						doneOK = true
+					} else {
+						doneEarly = true
+					}
 				}
 			})
 		}
-		if !doneOK {
+		if doneEarly && !doneOK {
+			r.fail(dname+"#wg-done-order", p.Pos(d.Pos()), "WaitGroup.Done is deferred after the exit handler, so it runs before it: processBlock can pass Wait and read the results while the failing task has not yet stored its error nor cancelled its siblings - the failure is reported as success")
+		} else if !doneOK {
 			r.fail(dname+"#wg-done", p.Pos(d.Pos()), "WaitGroup.Done is not called on every path of the task's exit handler: processBlock would wait forever")
 		} else {
-			r.ok(dname+" calls Done on every path", p.Pos(d.Pos()))
+			r.ok(dname+" calls Done on every path, after the error and the counter were published", p.Pos(d.Pos()))
 		}
+		// inside the handler, Done comes after the error store of a recovered panic and after the counter update
+		for dn := range dones {
+			eachInstr(d, func(i ssa.Instruction) {
+				isPub := false
+				if st, ok := i.(*ssa.Store); ok && fieldVarOfAddr(st.Addr) == s.errField {
+					isPub = true
+				}
+				if s.isCounterWrite(i) {
+					isPub = true
+				}
+				if isPub && instrReaches(dn, i) {
+					r.fail(dname+"#wg-done-order", p.IPos(dn), "the exit handler signals the WaitGroup before it has finished publishing the task error / the shared counter")
+				}
+			})
+		}
+		// the handler must not be able to panic itself on the recovered value
+		eachInstr(d, func(i ssa.Instruction) {
+			ta, ok := i.(*ssa.TypeAssert)
+			if !ok || ta.CommaOk {
+				return
+			}
+			if rec != nil && derivesFromValue(ta.X, rec, 0) {
+				r.fail(dname+"#handler-can-panic", p.IPos(ta), "the exit handler asserts the type of the recovered value without the comma-ok form: a panic carrying another type (the bitstream also panics with plain strings) panics again inside the deferred function of the task goroutine and terminates the process")
+			}
+		})
 		// (e) non-cancel counter writes must hold the token
 		for _, f := range []*ssa.Function{s.fn, d} {
 			acq := s.acquireEdges(f)
@@ -956,11 +1062,11 @@ func rulePoison(p *Prog, r *RuleResult) {
 		}
 		isCounter := func(v ssa.Value) bool {
 			if c, ok := v.(*ssa.Call); ok && isAtomic(&c.Call, "LoadInt32") && len(c.Call.Args) == 1 {
-				if fv := fieldVarOfAddr(c.Call.Args[0]); fv != nil && fv.Name() == "blockID" {
+				if fv := fieldVarOfAddr(c.Call.Args[0]); fv != nil && fv == s.parentCounter {
 					return true
 				}
 			}
-			if fv := fieldVarOfLoad(v); fv != nil && fv.Name() == "blockID" {
+			if fv := fieldVarOfLoad(v); fv != nil && fv == s.parentCounter {
 				return true
 			}
 			return false
@@ -1131,4 +1237,83 @@ func scanResultPropagated(p *Prog, r *RuleResult, parent *ssa.Function, sc *ssa.
 	} else {
 		r.fail(pname+"#scan-result", p.IPos(sc), "the error found by the result scan is neither tested nor returned by processBlock")
 	}
+}
+
+// derivesFromValue: v is target or reaches it through phi / extract / interface conversions.
+func derivesFromValue(v, target ssa.Value, d int) bool {
+	if d > 6 {
+		return false
+	}
+	if v == target {
+		return true
+	}
+	switch x := v.(type) {
+	case *ssa.Phi:
+		for _, e := range x.Edges {
+			if derivesFromValue(e, target, d+1) {
+				return true
+			}
+		}
+	case *ssa.Extract:
+		return derivesFromValue(x.Tuple, target, d+1)
+	case *ssa.ChangeInterface:
+		return derivesFromValue(x.X, target, d+1)
+	case *ssa.MakeInterface:
+		return derivesFromValue(x.X, target, d+1)
+	case *ssa.TypeAssert:
+		return derivesFromValue(x.X, target, d+1)
+	}
+	return false
+}
+
+// staleBase: the load of the parent's block counter that feeds the task ids can be bypassed on a path from a Wait
+// back to a go statement (a retry loop that does not re-read the counter).
+func staleBase(p *Prog, s *taskSide, v ssa.Value, resolve func(ssa.Value) ssa.Value) bool {
+	var loads []ssa.Instruction
+	seen := map[ssa.Value]bool{}
+	var walk func(v ssa.Value, d int)
+	walk = func(v ssa.Value, d int) {
+		if d > 8 || seen[v] {
+			return
+		}
+		seen[v] = true
+		v = resolve(v)
+		switch x := v.(type) {
+		case *ssa.BinOp:
+			walk(x.X, d+1)
+			walk(x.Y, d+1)
+		case *ssa.Convert:
+			walk(x.X, d+1)
+		case *ssa.UnOp:
+			if fv := fieldVarOfLoad(x); fv != nil && x.Parent() == s.parent && isInt32(fv.Type()) {
+				loads = append(loads, x)
+			}
+		}
+	}
+	walk(v, 0)
+	if len(loads) == 0 {
+		return false
+	}
+	avoid := map[ssa.Instruction]bool{}
+	for _, l := range loads {
+		avoid[l] = true
+	}
+	stale := false
+	eachInstr(s.parent, func(i ssa.Instruction) {
+		c := callOf(i)
+		if c == nil || !isMethodNamed(c, "sync", "WaitGroup", "Wait") {
+			return
+		}
+		for _, g := range s.gos {
+			if pathAvoiding(i.Block(), instrIndex(i)+1, g, avoid) {
+				stale = true
+			}
+		}
+	})
+	return stale
+}
+
+func isInt32(t types.Type) bool {
+	b, ok := t.Underlying().(*types.Basic)
+	return ok && b.Kind() == types.Int32
 }
